@@ -13,6 +13,11 @@ are computed in Coq): start = s, attributes = fill, end = e / the promised compl
 placeholder string recovered (compared with the harness's own field renderer), malformed names rejected.
 A law violation is a failing input; a model/implementation difference without law violation is a broken
 correspondence (reported as no-failing-input-found).
+(4) Every name the implementation ACCEPTS (generated or malformed) must be an instance of the template with the
+dictionary it returned (theorem parse_sound): the harness searches the occurrence strings / `*` words itself
+(find_instance) and Coq checks the certificate with `assemble` (run_instance; theorem instance_certificate); no
+certificate = the implementation mis-parsed a non-matching name.  (5) In the exact class of the sub-day end kind
+(hypotheses of end_partial_exact, evaluated in Coq as exact_hyp) the reported end must be e itself.
 """
 import datetime as dt
 
@@ -172,6 +177,110 @@ def own_render(tokens, s, e, fill):
         else:
             out.append("xyz")
     return "".join(out), binds
+
+
+# ----------------------------------------------------------------------------- instances of a template (parse_sound)
+
+WIDTH = {"year": 4, "year2": 2, "month": 2, "day": 2, "doy": 3, "hour": 2, "minute": 2, "second": 2,
+         "decisecond": 1, "centisecond": 2, "millisecond": 3, "microsecond": 6}     # compared with the tree by check_tables
+
+
+def tok_key(t):
+    return (("end_" if t[1] else "") + t[2]) if t[0] == "t" else t[1]
+
+
+def is_digits(x):
+    return x.isascii() and x.isdigit()
+
+
+def find_instance(tokens, user, name, d):
+    """Search the witness of `is_instance`: the string of every placeholder occurrence (in template order) and the words
+    of the `*`s such that the template spells `name` (optionally followed by one newline), every string lies in the
+    language of its placeholder's regex and the first occurrence of each key is d[key].  Returns (b, ws) with
+    b = [(token, text)], or None when `name` is no instance of the template with this dictionary."""
+    toks = [tuple(t) for t in tokens]
+    n = len(name)
+    first = {}
+    for i, t in enumerate(toks):
+        if t[0] in ("t", "u"):
+            first.setdefault(tok_key(t), i)
+    if set(first) != set(d):
+        return None
+
+    def in_lang(t, v):
+        if t[0] == "t":
+            return len(v) == WIDTH[t[2]] and is_digits(v)
+        k = user.get(t[1])
+        if k is None:
+            return False
+        if k[0] == "any":
+            return v != "" and "\n" not in v
+        if k[0] == "alts":
+            return v in k[1]
+        return len(v) == int(k[1]) and is_digits(v)
+
+    def ends(i, pos):
+        t = toks[i]
+        if t[0] == "lit":
+            return [pos + len(t[1])] if name.startswith(t[1], pos) else []
+        if t[0] == "star":
+            out, q = [pos], pos
+            while q < n and name[q] != "\n":
+                q += 1
+                out.append(q)
+            return out
+        if first[tok_key(t)] == i:
+            v = d[tok_key(t)]
+            return [pos + len(v)] if isinstance(v, str) and name.startswith(v, pos) and in_lang(t, v) else []
+        if t[0] == "t":
+            w = WIDTH[t[2]]
+            return [pos + w] if in_lang(t, name[pos:pos + w]) else []
+        k = user.get(t[1])
+        if k is None:
+            return []
+        if k[0] == "any":
+            out, q = [], pos
+            while q < n and name[q] != "\n":
+                q += 1
+                out.append(q)
+            return out
+        if k[0] == "alts":
+            return [pos + len(v) for v in k[1] if name.startswith(v, pos)]
+        w = int(k[1])
+        return [pos + w] if in_lang(t, name[pos:pos + w]) else []
+
+    dead = set()
+
+    def go(i, pos):
+        if i == len(toks):
+            return [] if pos == n or (pos == n - 1 and name[pos] == "\n") else None
+        if (i, pos) in dead:
+            return None
+        for q in ends(i, pos):
+            if q > n:
+                continue
+            rest = go(i + 1, q)
+            if rest is not None:
+                return [(toks[i], name[pos:q])] + rest
+        dead.add((i, pos))
+        return None
+    import sys
+    lim = sys.getrecursionlimit()
+    if lim < 4 * len(toks) + 200:
+        sys.setrecursionlimit(4 * len(toks) + 200)
+    w = go(0, 0)
+    if w is None:
+        return None
+    return ([(t, x) for t, x in w if t[0] in ("t", "u")], [x for t, x in w if t[0] == "star"])
+
+
+def coq_witness(tp, wit, name):
+    b, ws = wit
+    items = []
+    for t, x in b:
+        k = f"KT {'true' if t[1] else 'false'} {CTOR[t[2]]}" if t[0] == "t" else f"KU {cs(t[1])}"
+        items.append(f"({k}, {coq_string(x)})")
+    return f"run_instance {tp} {coq_list(items)} {coq_list([coq_string(w) for w in ws])} {coq_string(name)}"
 
 
 # ----------------------------------------------------------------------------- generators
@@ -623,11 +732,29 @@ def exprs_of(case, name):
     ex = [f"run_render {tp} {s} {e} {fill}",
           f"run_parse {tp} {coq_string(name)}",
           f"run_info {coq_cfg(case['cfg'])} {tp} {coq_string(name)}",
-          f"(hyps {tp} {s} {e} {fill}, promised_partial {tp} {s} {e})"]
+          f"(hyps {tp} {s} {e} {fill}, promised_partial {tp} {s} {e}, exact_hyp {tp} {s} {e})"]
     for m in case["bad_names"]:
         ex.append(f"run_parse {tp} {coq_string(m)}")
         ex.append(f"run_info {coq_cfg(case['cfg'])} {tp} {coq_string(m)}")
     return ex
+
+
+def instance_exprs(case, obs):
+    """for every name the implementation accepted: (name, dictionary, witness or None, Coq certificate or None)"""
+    out = []
+    if obs.get("info", 0) is None and any(case["user"].get(t[1], 0) is None for t in case["tokens"] if t[0] == "u"):
+        return out                       # parse_filename with an explicit template of unregistered placeholders
+    tp = coq_tokens(case["tokens"], case["user"])
+    accepted = []
+    if obs["parse"][0] == "Ok":
+        accepted.append((obs["name"], obs["parse"][1]))
+    for mname, ip, _ii in obs["bad"]:
+        if ip[0] == "Ok":
+            accepted.append((mname, ip[1]))
+    for name, d in accepted:
+        wit = find_instance(case["tokens"], case["user"], name, d)
+        out.append((name, d, wit, None if wit is None else coq_witness(tp, wit, name)))
+    return out
 
 
 def info_norm(x):
@@ -741,8 +868,9 @@ def check_cases(ctx, cases):
             index.append(None)
             continue
         ex = exprs_of(c, o["name"])
+        o["_inst"] = instance_exprs(c, o)
         index.append((len(exprs), len(ex)))
-        exprs += ex
+        exprs += ex + [x[3] for x in o["_inst"] if x[3] is not None]
     vals, log = core.coq_eval(ctx.work / "cases", "c02", PREAMBLE, exprs, shard=400)
     if log:
         ctx.log(log[-2000:])
@@ -755,30 +883,73 @@ def check_cases(ctx, cases):
             ctx.fail("correspondence", f"FileSet(...) raised {o['construct']} for {tag}", case=c, impl=o,
                      signature="construct-error")
             continue
-        v = vals[ix[0]:ix[0] + ix[1]]
-        if any(x is None for x in v):
+        inst = o.pop("_inst")
+        n_cert = sum(1 for x in inst if x[3] is not None)
+        v = vals[ix[0]:ix[0] + ix[1] + n_cert]
+        v, v_cert = v[:ix[1]], v[ix[1]:]
+        if any(x is None for x in v + v_cert):
             ctx.fail("correspondence", f"Coq evaluation of the model failed for {tag}", case=c, signature="coq-eval")
             continue
         m_render, m_parse, m_info = norm_model(v[0]), parse_norm(norm_model(v[1])), info_norm(norm_model(v[2]))
-        hyp, promised = tuple(v[3][:4]), v[3][4]
+        hyp, promised, exact = tuple(v[3][:4]), v[3][4], v[3][5]
         promised = promised[1] if isinstance(promised, tuple) else None
         det, start_ok, full_ok, partial = hyp
         inside = bool(det and start_ok)
+        regexy = any(t[0] == "lit" and any(ch in "{*[<(?!|\\^$+)]}" for ch in t[1]) for t in c["tokens"])
         # the property's law on the implementation's output
         laws = law_check(c, o, hyp, promised)
         for sig, msg in laws:
             ctx.fail("failing-input", f"{msg}; {tag}, fill {c['fill']}, info_via {c['cfg']['via']}", case=c,
                      impl={k: o[k] for k in ("render", "parse", "info")}, model={"render": m_render, "parse": m_parse, "info": m_info},
                      signature=sig)
-        # the corollary for the exact partial class, as a check of the specification itself
-        if inside and partial and c["cfg"]["via"] == "filename" and partial_exact(c) and promised != c["e"]:
-            ctx.fail("proof", f"specification: promised end {promised} differs from e={c['e']} in the exact class; {tag}",
-                     case=c, signature="spec-partial-exact")
+        # the exact class of the sub-day end kind (theorems end_partial_exact / roundtrip_end_partial_exact): the
+        # hypotheses are evaluated in Coq (exact_hyp) and, independently, by the harness (partial_exact); the end is e
+        if inside and partial:
+            stats["partial_inside"] = stats.get("partial_inside", 0) + 1
+            if exact:
+                stats["partial_exact"] = stats.get("partial_exact", 0) + 1
+                ds, de = of_us(c["s"]).date(), of_us(c["e"]).date()
+                if ds != de:
+                    stats["partial_exact_next_day"] = stats.get("partial_exact_next_day", 0) + 1
+                    if (ds.year, ds.month) != (de.year, de.month):
+                        stats["partial_exact_over_month_or_year_end"] = stats.get("partial_exact_over_month_or_year_end", 0) + 1
+            elif promised is not None and promised != c["e"]:
+                stats["partial_promised_differs_from_e"] = stats.get("partial_promised_differs_from_e", 0) + 1
+            if bool(exact) != bool(partial_exact(c)):
+                ctx.fail("correspondence", f"specification: the exact class of the sub-day end kind is decided differently by "
+                         f"the model (exact_hyp = {exact}) and by the harness ({partial_exact(c)}); {tag}, period "
+                         f"({of_us(c['s'])}, {of_us(c['e'])})", case=c, signature="spec-exact-class")
+            if exact and promised != c["e"]:
+                ctx.fail("proof", f"specification: promised end {promised} differs from e={c['e']} in the exact class; {tag}",
+                         case=c, signature="spec-partial-exact")
+            if (exact and c["cfg"]["via"] == "filename" and o["info"] is not None and o["info"][0] == "Ok"
+                    and o["info"][1][1] != c["e"] and not any(sig == "law-end" for sig, _ in laws)):
+                ctx.fail("failing-input", f"period ({of_us(c['s'])}, {of_us(c['e'])}) -> name {o['name']!r} -> end "
+                         f"{of_us(o['info'][1][1])}: the end spells every sub-unit field of the start and 0 <= e - s < unit, "
+                         f"so it must come back as e; {tag}", case=c, impl=o["info"], signature="law-end-exact")
+        # parse_sound on the implementation: an accepted name is an instance of the template with the returned dictionary
+        j = 0
+        for name, d, wit, cert in ([] if regexy else inst):
+            stats["accepted_names"] = stats.get("accepted_names", 0) + 1
+            if wit is None:
+                ctx.fail("failing-input" if det else "correspondence",
+                         f"parse_filename({name!r}) = {d}, but the name is no instance of {tag} with these strings "
+                         f"(no choice of placeholder words spells it): a non-matching name is mis-parsed",
+                         case=dict(c, bad_names=[name] if name != o["name"] else []), impl=d, signature="law-parse-sound")
+                continue
+            r = v_cert[j]
+            j += 1
+            okc, dd = (r[0], r[1]) if isinstance(r, tuple) and len(r) == 2 else (None, None)
+            if okc is not True or dict(dd) != d:
+                ctx.fail("correspondence", f"specification: the witness found by the harness for {name!r} ({wit}) is not "
+                         f"accepted by `assemble` of the model (run_instance = {r}); {tag}", case=c, impl=d,
+                         signature="spec-instance")
+            else:
+                stats["instance_certificates"] = stats.get("instance_certificates", 0) + 1
         # model against implementation
         diffs = []
         if m_render != o["render"]:
             diffs.append(("render", o["render"], m_render))
-        regexy = any(t[0] == "lit" and any(ch in "{*[<(?!|\\^$+)]}" for ch in t[1]) for t in c["tokens"])
         if regexy:
             pass      # a literal with regex syntax: the template is a user-written regex, outside the model
         elif m_parse != parse_norm(o["parse"]):
@@ -864,7 +1035,8 @@ def run(ctx):
                        "booleans computed in Coq), get_filename and get_info both succeeded; distinct by input. Cases "
                        "outside the hypotheses (twists) and malformed names are compared with the algorithmic model only")
     ctx.cov["input_distribution"] = {
-        "streams": stats,
+        "streams": {k: v for k, v in stats.items() if k in ("law", "twist")},
+        "clauses": {k: v for k, v in stats.items() if k not in ("law", "twist")},
         "twists": {t: sum(1 for c in cases if c["twist"] == t) for t in TWISTS},
         "info_via": {v: sum(1 for c in cases if c["cfg"]["via"] == v) for v in ("filename", "both", "handler")},
         "end_kind": {"none": sum(1 for c in cases if not any(t[0] == "t" and t[1] for t in c["tokens"])),
